@@ -5,7 +5,7 @@ SPECIFICATION Spec
 CONSTANTS
   MaxDim = 2
   MaxLen = 3
-  MaxRounds = 1
+  MaxRounds = 0
   WrongSwap = FALSE
 INVARIANT MapPreserved
 INVARIANT WellFormed
